@@ -47,6 +47,7 @@ type StoppableSource struct {
 	handler    handler.EventHandler
 	predicates []predicate.Predicate
 
+	inf cache.Informer
 	reg kcache.ResourceEventHandlerRegistration
 }
 
@@ -62,9 +63,18 @@ func (s *StoppableSource) Start(ctx context.Context, q workqueue.TypedRateLimiti
 	if err != nil {
 		return errors.Wrapf(err, "cannot add event handler")
 	}
+	s.inf = i
 	s.reg = reg
 
 	return nil
+}
+
+// Active returns true if the source's EventHandler is registered with an
+// Informer that hasn't been stopped. A source stops being active when it's
+// stopped, or when its backing Informer is removed - even if another Informer
+// for the same kind is started later.
+func (s *StoppableSource) Active() bool {
+	return s.reg != nil && s.inf != nil && !s.inf.IsStopped()
 }
 
 // Stop removes the EventHandler from the source's Informer. The Informer will
@@ -83,6 +93,7 @@ func (s *StoppableSource) Stop(ctx context.Context) error {
 		return errors.Wrap(err, "cannot remove event handler")
 	}
 
+	s.inf = nil
 	s.reg = nil
 	return nil
 }
